@@ -31,8 +31,15 @@ theorem regex_sources_pinned :
     Gen.C18.reUnNumDimPattern = ("^([+-]?)([0-9]*\\.[0-9]+|[0-9]+)(.*)$", "re.I|re.S|re.U|re.X") ∧
     Gen.C18.reHexcolorPattern = ("^\\#(?:[0-9abcdefABCDEF]{3}|[0-9abcdefABCDEF]{6})\\Z", "") ∧
     Gen.C18.simpleescapesPattern = ("(\\\\[^0-9a-fA-F])", "") ∧
-    Gen.C18.forbiddenInUriPattern = (".*?[\\(\\)\\s\\;,'\"]", "re.U") ∧
-    Gen.C18.stringReplaces = [([0x0A], cps "\\a "), ([0x0D], cps "\\d "), ([0x0C], cps "\\c "), ([0x22], cps "\\\"")] := by
+    Gen.C18.forbiddenInUriPattern = (".*?[\\(\\)\\s\\;,'\"]", "re.U") := by
+  decide
+
+/-- the `.replace` chain of `helper.string` consists of exactly these four replacements (in any order: no
+replacement produces a character another one looks for, so the order does not matter and is not pinned) -/
+theorem string_replaces_table :
+    Gen.C18.stringReplaces.length = 4 ∧
+    ∀ pr ∈ [([0x0A], cps "\\a "), ([0x0D], cps "\\d "), ([0x0C], cps "\\c "), ([0x22], cps "\\\"")],
+      pr ∈ Gen.C18.stringReplaces := by
   decide
 
 /-- the white-space table of the interpreter (`str.isspace`, regex `\s`) that `strip`, `isBlank` and the URL
@@ -51,6 +58,13 @@ theorem number_written_canonical (l : Lit) (h : l.Wf) (p : Prefs) (typ : NumType
     (hsp : isBlank p.spacer = true) (h6 : (l.fp.getD []).length ≤ 6) (hov : l.tooLarge = false) :
     roundTrip p typ l.text = .ok (canonLit p.omitLeadingZero l).text :=
   roundTrip_canon h p typ hsp h6 hov
+
+/-- **T18.6** (numbers) the typed accessors are the parts of the literal: `_sign` the sign as written, `value` the
+integer / decimal given by the digits, `dimension` the unit in lower case, `type` the token type -/
+theorem number_accessors (l : Lit) (h : l.Wf) (typ : NumType) (hov : l.tooLarge = false) :
+    parseDim typ l.text =
+      .ok { sign := l.sign, ip := l.ip, fp := l.fp, dim := l.unit.map lowerAscii, typ := typ } :=
+  parseDim_text h typ hov
 
 /-- **T18.1** `number_denotes`: the written text denotes exactly the same rational number as the literal
 (`Lit.value`, computed from the parts) and the same unit; the only unit ever dropped is a zero-length unit after
@@ -270,6 +284,16 @@ U+00A0 at the edge -/
 theorem url_edge_witness :
     uriValue (cps "url( a)") = .ok (cps "a") ∧ uriValue (cps "url('x')") = .ok (cps "x") ∧
     uriValue (cps "url(" ++ [0xA0, 0x61, 0x29]) = .ok (cps "a") := by decide +kernel
+
+/-- small-scope exhaustive check (a test run by the kernel, NOT a general theorem): for every stored value of
+length ≤ 3 over {a z 4 " ' \ LF CR space (} that is outside the regions of the known findings (`storedOk`), the
+written string denotes exactly what the stored value stands for. (Length ≤ 4 — 11 111 values — was checked the same
+way once; it takes 2.5 min and is not part of the build.) -/
+theorem string_roundtrip_small_scope : stringRoundTripOn (allStrings strAlphabet 3) = true := by decide +kernel
+
+/-- the same for `helper.uri` (quoted or unquoted as it decides), alphabet extended by `;` and U+007F -/
+theorem url_roundtrip_small_scope : urlRoundTripOn (allStrings (0x7F :: 0x3B :: strAlphabet) 3) = true := by
+  decide +kernel
 
 /-- samples where the written form does denote the stored value (tests) -/
 example : cssStringDenote (helperString (cps "a\"b'c")) = some (cps "a\"b'c") := by decide +kernel
